@@ -199,6 +199,28 @@ def merged_fields(case, c):
     return fs
 
 
+def hook_run_names(chain):
+    """names assigned by the hooks that run for instances of the class (Spec.hook_set_names: the first class along the MRO that
+    defines __post_init__, continuing through its super() calls)"""
+    for i, k in enumerate(chain):
+        h = pi_norm(k['pi'])
+        if h is None:
+            continue
+        out = []
+        for st in h['body']:
+            if st[0] == 'set':
+                out.append(st[1])
+            else:
+                out += hook_run_names(chain[i + 1:])
+        return out
+    return []
+
+
+def deco_chain(case, c):
+    """instances of class c are instances of a @frozen_dataclass class"""
+    return any(k['deco'] is not None for k in chain_of(case, c))
+
+
 def head_decorated(case, c):
     return case['classes'][c]['deco'] is not None
 
@@ -523,11 +545,7 @@ def run_op(w, case, classes, call, regs, op):
         given = dict(kwl)
         # a field that a user-written __post_init__ of the hierarchy assigns holds what the hook assigned: the field clauses
         # of the property are judged on the other fields
-        hooked = set()
-        for k in chain_of(case, c):
-            h = pi_norm(k['pi'])
-            if h:
-                hooked |= {st[1] for st in h['body'] if st[0] == 'set'}
+        hooked = set(hook_run_names(chain_of(case, c)))
         same_orig, same_kw = [], []
         for f in fields:
             n = f['name']
@@ -657,11 +675,11 @@ def run_op(w, case, classes, call, regs, op):
         if kind == 'hash':
             code, res = attempt(lambda: hash(ia))
             scode, sres = attempt(lambda: hash(ta))
-            if ta is not None and head_decorated(case, ca) and ((code, res if code == 0 else None) != (scode, sres if scode == 0 else None)):
+            if ta is not None and deco_chain(case, ca) and ((code, res if code == 0 else None) != (scode, sres if scode == 0 else None)):
                 viol.append({'clause': 'hash is the hash of the tuple of fields', 'impl': [code, str(res)[:40]], 'tuple': [scode, str(sres)[:40]]})
             # history independence: a burst of short-lived instances of the same class with other field values (each one
             # dropped before the next is made, so that CPython recycles the address), and an equal pair made before / after
-            if head_decorated(case, ca):
+            if deco_chain(case, ca):
                 bad = hash_burst(case, ca, ia)
                 if bad:
                     viol.append(dict(bad, clause='hash is the hash of the tuple of fields'))
@@ -681,16 +699,18 @@ def run_op(w, case, classes, call, regs, op):
             provider = next((k for k in ch if k['deco'] is not None), None)
         else:
             provider = next((k for k in ch if k['deco'] is not None and opt_of(case, k, 'order', False)), None)
-        spec_applies = head_decorated(case, ca) and (opn == 'eq' or opt_of(case, case['classes'][ca], 'order', False))
+        # the property: == for every instance of a @frozen_dataclass class; < <= > >= when a class of its MRO was decorated with
+        # order=True - always the comparison of the tuples of the fields of the instance's class
+        spec_applies = deco_chain(case, ca) and (opn == 'eq' or any(k['deco'] is not None and opt_of(case, k, 'order', False) for k in ch))
         if spec_applies and same and ta is not None and tb is not None:
             scode, sres = attempt(lambda: CMP[opn](ta, tb))
             if (code, res if code == 0 else None) != (scode, sres if scode == 0 else None):
                 viol.append({'clause': f'{opn} is the comparison of the tuples of fields', 'impl': [code, str(res)[:40]],
-                             'tuple': [scode, str(sres)[:40]]})
+                             'tuple': [scode, str(sres)[:40]], 'opn': opn})
         if provider is None or not same:
             # NotImplemented on both sides: == falls back to identity, ordering raises TypeError
             ok = (code == 0 and res is (ia is ib)) if opn == 'eq' else (code == 10)
-            if head_decorated(case, ca) and not same and not ok:
+            if deco_chain(case, ca) and not same and not ok:
                 viol.append({'clause': 'comparison with an instance of another class is NotImplemented', 'op': opn, 'outcome': code})
             return [0], viol
         pfs = [f for f in merged_fields(case, provider['id']) if f['compare']]
